@@ -241,6 +241,11 @@ func (rd *HandlingDataManager) initializeStreams() (err error) {
 		return fmt.Errorf("failed to create stream: %w", err)
 	}
 	stream.WithHub(rd.lunarHub)
+	if rd.stream != nil {
+		// Replacing a running engine: a flow that fails to load must fail the switch
+		// instead of being skipped, or the update would be applied only in part.
+		stream.WithValidationMode()
+	}
 	if err = stream.Initialize(); err != nil {
 		return fmt.Errorf("failed to initialize streams: %w", err)
 	}
